@@ -200,13 +200,19 @@ func (f *TerraformFetcher) Directors() ([]*snippet.Director, error) {
 	var d []*snippet.Director
 	for _, s := range f.filterService() {
 		for _, director := range s.Directors {
-			d = append(d, &snippet.Director{
+			sd := &snippet.Director{
 				Type:     director.Type,
 				Name:     director.Name,
 				Backends: director.Backends,
-				Retries:  *director.Retries,
-				Quorum:   *director.Quorum,
-			})
+			}
+			// retries and quorum are optional attributes in the planned values
+			if director.Retries != nil {
+				sd.Retries = *director.Retries
+			}
+			if director.Quorum != nil {
+				sd.Quorum = *director.Quorum
+			}
+			d = append(d, sd)
 		}
 	}
 	return d, nil
